@@ -58,3 +58,71 @@ Section Trace.
     - now rewrite H.
   Qed.
 End Trace.
+
+(* ---- the event-recording run (compared with the `coupe_verif` records of
+   k_means.rs): its state component is the run proper *)
+Definition res_fst {X Y} (r : res (X * Y)) : res X :=
+  match r with
+  | Ok (a, _) => Ok a
+  | Err e => Err e
+  | Panic p => Panic p
+  | OutOfFuel => OutOfFuel
+  end.
+
+Section Events.
+  Variable A : karith.
+  Variable R : reds A.
+  Variable rot : option (list (vec A)).
+  Variable D : nat.
+  Variable cfg : settings A.
+
+  Lemma balance_loop_ev_fst b : forall it points weights perm centers cids dmbr target st ev,
+    res_fst (balance_loop_ev A R D cfg b it points weights perm centers cids dmbr target st ev) =
+    balance_loop A R D cfg b it points weights perm centers cids dmbr target st.
+  Proof.
+    induction b as [|b IH]; intros; cbn [balance_loop balance_loop_ev res_fst]; [reflexivity|].
+    destruct (sweep A cfg points centers cids dmbr (st_infl A st) _) as [[[l u] w]| | |]; cbn [bind res_fst]; auto.
+    destruct (apply_writes w (st_asg A st)) as [asg| | |]; cbn [bind res_fst]; auto.
+    destruct (mapM _ (indexed 0 cids)) as [nw| | |]; cbn [bind res_fst]; auto.
+    destruct (imbalance A R [it; S b] nw) as [imb| | |]; cbn [bind res_fst]; auto.
+    destruct (klt A imb _); cbn [res_fst]; auto.
+    destruct (new_centers A R D _ points asg cids centers) as [ncs| | |]; cbn [bind res_fst]; auto.
+    destruct (relax_bounds A R _ _ _ _ _) as [lu| | |]; cbn [bind res_fst]; auto.
+  Qed.
+
+  Lemma assign_and_balance_ev_fst it points weights perm centers cids st ev :
+    res_fst (assign_and_balance_ev A R rot D cfg it points weights perm centers cids st ev) =
+    assign_and_balance A R rot D cfg it points weights perm centers cids st.
+  Proof.
+    unfold assign_and_balance_ev, assign_and_balance.
+    destruct (obb_of A R rot D [1; it] points) as [obb| | |]; cbn [bind res_fst]; auto.
+    destruct (mapM _ (combine centers (st_infl A st))) as [dmbr| | |]; cbn [bind res_fst]; auto.
+    destruct (r_sum R [2; it] weights) as [tw| | |]; cbn [bind res_fst]; auto.
+    apply balance_loop_ev_fst.
+  Qed.
+
+  Lemma kmeans_iter_ev_fst cur : forall points weights perm centers cids st ev,
+    res_fst (kmeans_iter_ev A R rot D cfg cur points weights perm centers cids st ev) =
+    kmeans_iter A R rot D cfg cur points weights perm centers cids st.
+  Proof.
+    induction cur as [|cur IH]; intros; cbn [kmeans_iter kmeans_iter_ev];
+      rewrite <- (assign_and_balance_ev_fst _ points weights perm centers cids st ev);
+      destruct (assign_and_balance_ev A R rot D cfg _ points weights perm centers cids st ev) as [[st1 ev1]| | |];
+      cbn [bind res_fst]; auto;
+      destruct (new_centers A R D _ points (st_asg A st1) cids centers) as [ncs| | |]; cbn [bind res_fst]; auto;
+      destruct (if s_erode cfg then _ else _) as [infl| | |]; cbn [bind res_fst]; auto;
+      destruct (r_maxby R _ (map2 (dist A) centers ncs)) as [[dm|]| | |]; cbn [bind res_fst]; auto.
+    destruct (klt A dm _); cbn [res_fst]; auto.
+    destruct (relax_bounds A R _ _ _ _ _) as [lu| | |]; cbn [bind res_fst]; auto.
+  Qed.
+
+  Theorem kmeans_events_final points weights part :
+    res_fst (kmeans_events A R rot D cfg points weights part) = kmeans A R rot D cfg points weights part.
+  Proof.
+    unfold kmeans_events, kmeans. destruct (_ <? 2)%N; [reflexivity|].
+    unfold kmeans_with_initial. destruct (negb _); [reflexivity|].
+    destruct (mapM _ (indexed 0 (center_ids part))) as [centers| | |]; cbn [bind res_fst]; auto.
+    rewrite <- (kmeans_iter_ev_fst (s_max_iter cfg) points weights (seq 0 (length points)) centers (center_ids part) _ []).
+    destruct (kmeans_iter_ev A R rot D cfg _ _ _ _ _ _ _ _) as [[s ev]| | |]; cbn [bind res_fst fst]; auto.
+  Qed.
+End Events.
